@@ -128,6 +128,7 @@ TIE = {
     "OneWaySys": ("incremental.rs tmp_path / deliver_local / deliver_pull as the list of file-system calls one delivery makes (data into the staging name, rename onto the destination, mtime), read as the program-counter transitions of the one-way crash model", ["C09", "C04"]),
     "ArchiveSave": ("archive.rs `Archive::save` as the list of file-system calls it makes (create and fill `.tmp`, fsync it, `.bak` rotation iff an archive exists, rename into place, fsync of the directory), read as the archive steps of the crash model", ["C08"]),
     "WireMagic": ("wire.rs `read_magic` (exactly six bytes, all compared with MAGIC)", ["C12"]),
+    "Targets": ("main.rs FileLocation::parse and hub.rs split_target (how `host:path` arguments are read)", ["C04", "C13"]),
     "Cas": ("cas_decide (wire.rs)", ["C03", "C10", "C13"]),
     "Archive": ("Archive::load's trust decision (archive.rs)", ["C07"]),
     "Plan": ("needs_transfer, glob_match, is_excluded and build_plan (plan.rs)", ["C04", "C14", "C15", "C19"]),
@@ -138,7 +139,7 @@ TIE = {
 for _g, (_what, _props) in TIE.items():
     for _p in _props:
         if _p in CLAIMED:
-            CLAIMED[_p]["text"] += (" Translator tie: %s are re-translated from the current Rust source on every run (tools/gen_logic.py -> coq/Gen/%sGen.v) and proved equal to the model on all inputs (coq/Proofs/Tie%s.v, restated as %s_model_is_translation_of_source); a function the translator cannot read, or whose tie proof no longer goes through, fails this check closed." % (_what, _g, _g, _p))
+            CLAIMED[_p]["text"] += (" Translator tie: %s are re-translated from the current Rust source on every run (tools/gen_logic.py -> coq/Gen/%sGen.v) and proved equal to the model on all inputs (coq/Proofs/Tie%s.v or <Model>Proofs.v, restated in coq/Props/%s.v); a function the translator cannot read, or whose tie proof no longer goes through, fails this check closed." % (_what, _g, _g, _p))
             if "gen_logic.py" not in CLAIMED[_p]["note"]:
                 CLAIMED[_p]["note"] += " Also trusted: tools/gen_logic.py + tools/rustmini.py (Rust-subset parser/translator and its tables naming model vocabulary for Rust paths, fields, library calls and error texts)."
             if "source-to-Gallina" not in CLAIMED[_p]["technique"]:
